@@ -36,6 +36,10 @@ def run(ctx) -> None:
         ctx.reuse("C08.device-hook", c01.numbering_hook, dev)
     for name, track in (("evo_aspirate", "remove"), ("evo_dispense", "add")):
         ctx.reuse("C08.evo-grid", c13.same_args, name, track)
+    # every geometry of the quantifier exists (26 rows / 26 virtual rows are accepted)
+    from . import c20
+
+    ctx.reuse("C08.formula", c20.guard_table)
     # the well ranges of a reagent distribution are positions of the same numbering (whole source column, first..last destination)
     ctx.reuse("C08.device-hook", c01.pair_distribute, "C01.pair-distribute")
     ctx.guard("C08.regex", regex_agreement)
@@ -247,6 +251,13 @@ def device_private(ctx, rule: str = "C08.device-private") -> None:
             ctx.rep.inconclusive(rule, f"{pkg}.get_well_position", "function not found")
             return
         ctx.rep.touch(f)
+        # what the device package exports under that name is its own numbering
+        pm = ctx.prog.modules.get(f"robotools.{pkg}")
+        if pm is not None and ("get_well_position" in pm.imports or "get_well_position" in pm.functions):
+            exp = ctx.prog.resolve_name(pm, "get_well_position")
+            ctx.rep.check(exp is f, rule, f"robotools.{pkg}/export", f"robotools.{pkg}.get_well_position is the {pkg} numbering",
+                          f"robotools.{pkg} exports `get_well_position` from `{getattr(getattr(exp, 'module', None), 'name', exp)}`: users of the {pkg} package number trough wells by the other device's rule",
+                          where=f"robotools/{pkg}/__init__.py")
         lab = f.params[0]
         writes, reads = {}, set()
         for sub in own_walk(f.node):
